@@ -61,16 +61,16 @@ CHECKS.update({
     'C09': dict(text='Real callMethod -> exec -> eval -> lookup/assign on a hand-built method body: a bare name must use the receiver\'s field whatever the caller\'s locals are called (renaming the caller\'s local w -> v changes nothing); values symbolic.',
                 note='one caller scope, one field; colliding/non-colliding name and read/write enumerated. On the pinned tree the colliding cases FAIL: recorded as known finding C09-caller-local-shadows-field (repair not small).',
                 ref='DESIGN.md §2 C09, §5', tech=TECH_SAT),
-    'C12': dict(text='CBMC built-in checks (division by zero, MIN/-1 on sdiv/srem, invalid/freed/out-of-bounds dereference) and "only a located Runtime BlochError may escape" over the real eval() of one binary expression with full-range symbolic operands and divisors {0,1,-1,2,7,MIN,MAX}.',
-                note='expression kernel only: literal conversion, vtable construction, teardown after error, indices, null references are NOT encoded. Found and fixed: INT64_MIN % -1L SIGFPE (bbb974b).',
+    'C12': dict(text='CBMC built-in checks (division by zero, MIN/-1 on sdiv/srem, invalid/freed/out-of-bounds dereference) and "only a located Runtime BlochError may escape" over the real eval() of one binary expression with full-range symbolic operands and divisors {0,1,-1,2,7,MIN,MAX}, and over the real buildClassTable for a class with 1..3 virtual overloads of one name (every dispatch-table entry dereferenced).',
+                note='expression kernel and non-generic dispatch-table construction only: literal conversion, teardown after error, indices, null references, generic instantiations are NOT encoded. Found and fixed: INT64_MIN % -1L SIGFPE (bbb974b); dangling dispatch entries with overloaded virtual methods (c53bee3).',
                 ref='DESIGN.md §2 C12', tech=TECH_SAT),
     'C17': dict(text='One endScope() step of the real evaluator from arbitrary prior counts and arbitrary last-measurement records: a tracked qubit contributes exactly one outcome (last measurement or ?), an untracked one nothing, other keys untouched.',
                 note='qubit[] entries are in the thorough tier only and may be inconclusive (900 s); CLI shot loop, @shots precedence, probabilities, echo policy (cli.cpp) and tracked object fields are outside.',
                 ref='DESIGN.md §2 C17', tech=TECH_SAT),
 })
 CHECKS.update({
-    'C10': dict(text='Real SemanticAnalyser::analyse on two-function programs in both declaration orders (main calling gg with 0..2 arguments, matching or one too many): the verdict is a function of the content only; node positions symbolic.',
-                note='programs enumerated; class order (derived before base) in analyser/buildClassTable, module merge order, >2 declarations and printed output are outside. Found and fixed: forward calls checked against an empty signature (6269c7c).',
+    'C10': dict(text='Real SemanticAnalyser::analyse on two-function programs in both declaration orders (main calling gg with 0..2 arguments, matching or one too many): the verdict is a function of the content only; node positions symbolic. Real RuntimeEvaluator::buildClassTable on a two-class hierarchy in both orders and a three-class chain in all six orders: layouts, slots and dispatch entries are order-independent.',
+                note='programs enumerated; class order inside the analyser, generic bases, module merge order, >2 function declarations and printed output are outside. Found and fixed: forward calls checked against an empty signature (6269c7c); derived-before-base classes got an empty inherited layout (a0e74ab).',
                 ref='DESIGN.md §2 C10', tech=TECH_SAT),
     'C16': dict(text='Real SemanticAnalyser::analyse on hand-built programs, each rule instance in each enumerated position with its violation-free twin: use before declaration (initialiser, assignment, echo, condition), '
                      'writes to a final local (AssignmentStatement, PostfixExpression, AssignmentExpression), primitive initialiser compatibility (7x7 types, int->long widening only).',
